@@ -1,4 +1,5 @@
-NOTES = ("All 20 checks are generated-input search against an explicit oracle (property-based testing with proptest over a replicated-history language, "
+NOTES = ("One genuine defect found by the thorough tier (two pending removes overwriting each other in reset_remove, property C08) was repaired in /repo by the unguarded commit 92476d5 'fix: unite pending removes whose clocks collapse in reset_remove'; it is recorded as fixed in known_findings.json and its replays run as plain regression inputs. No hook commit exists: the harness needs no instrumentation. "
+         "All 20 checks are generated-input search against an explicit oracle (property-based testing with proptest over a replicated-history language, "
          "bounded-exhaustive small scopes for C10/C14/C15; thorough tier = 30-50x cases; coverage-guided libFuzzer targets over the same interpreter live in /verif/fuzz). "
          "exit 0 = held on everything explored (KNOWN-FINDING lines possible), 1 = VIOLATION line, 2 = infrastructure (build failure, degenerate generator, watchdog). "
          "Known findings are listed in known_findings.json with one minimal replay per (property, class); each check re-executes its replays in strict mode and prints KNOWN-FINDING while they still fail.")
@@ -6,14 +7,14 @@ NOT_APPLICABLE = {}
 E = "Exploration: generated-history search against an explicit oracle; evidence that the property holds on every explored case, never a proof of absence. "
 T_HIST = "property-based testing (proptest): generated replicated histories (Plans) interpreted against the real library, "
 add("C01", T_HIST + "differential oracle: equal knowledge sets => equal reads, plus ops-only twins in other causal orders",
-    E + "All 15 instantiations; replicas and fresh twins with equal knowledge compared on every read and context after every step under causal delivery.",
+    E + "All 13 op-replicated types in 16 instantiations (incl. Map<_,Orswot>, Map<_,MVReg>, Map<_,Map<_,Orswot>>, Map<_,Map<_,MVReg>>); replicas and fresh twins with equal knowledge compared on every read and context after every step under causal delivery.",
     "Trusts the simulator's knowledge-set bookkeeping. Map<_,MVReg>: keys where the MAP-T2 trigger (model-side) holds are exempted for extra written values only.", "DESIGN.md 3/C01")
 add("C02", T_HIST + "metamorphic oracle: a+b=b+a, (a+b)+c=a+(b+c), a+a=a on triples of reachable states, gossip convergence",
     E + "Operands share history, hold observed-remote removes and pending removes and are results of earlier merges.",
     "Map: per-key exemptions MAP-T1/T3/T5 (model-side triggers); LWWReg markers unique.", "DESIGN.md 3/C02")
 add("C03", T_HIST + "differential oracle: merged state vs ops-only twin fed the union of the ops",
     E + "After every step, and for generated pairs merge(state r1, state r2), reads equal those of a fresh replica that applied exactly the ops of the knowledge set.",
-    "Causally closed knowledge for Orswot/Map/MVReg, arbitrary for order-free types; Map exemptions MAP-T1/T2/T5 per key.", "DESIGN.md 3/C03")
+    "Compared states have causally closed knowledge for Orswot/Map/MVReg (operands may hold pending removes in the per-actor-order jobs), arbitrary knowledge for order-free types; Map exemptions MAP-T1/T2/T2b/T3/T5/T6 per key.", "DESIGN.md 3/C03")
 add("C04", T_HIST + "reference model: dot-store specification of an observed-remove add-wins set (stateful/model-based)",
     E + "Every read entry point of the affected replica compared with the specification after every step, causal and per-actor delivery, duplicates, merges, stale merges. Strict: no exemption.",
     "Trusts the dot-store model (sets of op ids + integer comparisons); u8 members/actors; each actor confined to one replica.", "DESIGN.md 3/C04")
